@@ -323,8 +323,10 @@ struct HelpEnv {
     third_envelope: usize,
     storage_addr: usize,
     installs: usize,
+    /// the reader's space_offer at the instant my replacement was installed
+    their_space_at_install: usize,
 }
-static mut HENV: HelpEnv = HelpEnv { on: false, who_control: 0, who_active_addr: 0, budget: 0, gen_addr: 0, next_gen: 0, pending_addr: 0, third_envelope: 0, storage_addr: 0, installs: 0 };
+static mut HENV: HelpEnv = HelpEnv { on: false, who_control: 0, who_active_addr: 0, budget: 0, gen_addr: 0, next_gen: 0, pending_addr: 0, third_envelope: 0, storage_addr: 0, installs: 0, their_space_at_install: 0 };
 static mut HENV_WHO: Option<&'static Slots> = None;
 
 fn henv_before(ev: &crate::verif::Event) {
@@ -351,8 +353,12 @@ fn henv_action() {
     let c = who.control.raw().load(SeqCst);
     match nd::below(5) {
         1 => {
-            // FINISH
+            // FINISH: the reader's confirming swap; if it finds a replacement it adopts that
+            // envelope as its own space (helping::Slots::confirm, l1_helping_confirm)
             if c & TAG_MASK != 0 {
+                if c & TAG_MASK == REPLACEMENT_TAG {
+                    who.space_offer.raw().store((c & !TAG_MASK) as *mut Handover, SeqCst);
+                }
                 who.control.raw().store(IDLE, SeqCst);
                 e.budget -= 1;
             }
@@ -391,6 +397,7 @@ fn henv_after(ev: &crate::verif::Event) {
     let e = unsafe { &mut HENV };
     if e.on && ev.addr == e.who_control && (ev.op == crate::verif::Op::Cas || ev.op == crate::verif::Op::CasWeak) && ev.ok {
         e.installs += 1;
+        e.their_space_at_install = unsafe { HENV_WHO.unwrap() }.space_offer.raw().load(SeqCst) as usize;
         vassert!(ev.a & TAG_MASK == GEN_TAG, "help_replaces_only_a_published_generation");
         vassert!(e.gen_addr == e.storage_addr, "help_hands_over_only_to_a_reader_loading_this_storage");
     }
@@ -432,6 +439,7 @@ pub(crate) fn rg_help() {
             third_envelope: own_handover_addr(&third),
             storage_addr,
             installs: 0,
+            their_space_at_install: 0,
         };
         HENV_WHO = Some(&*(&who as *const Slots));
     }
@@ -457,6 +465,11 @@ pub(crate) fn rg_help() {
     vassert!(post_me.control == IDLE && post_me.slot == pre_me.slot, "help_frame_own_control_and_slot");
     if installs == 0 {
         vassert!(post_me.space_offer == pre_me.space_offer, "help_keeps_its_envelope_when_nothing_was_installed");
+    } else {
+        // the exchange of envelopes: I gave mine away, so I must end up with THEIRS as it was when
+        // my replacement went in (not with whatever the reader advertises later - that may be mine)
+        vassert!(post_me.space_offer == unsafe { HENV.their_space_at_install }, "help_takes_their_space_in_return");
+        vassert!(post_me.space_offer != pre_me.space_offer, "help_does_not_keep_the_envelope_it_gave_away");
     }
     vcover!("rg_help_end");
 }
